@@ -1,0 +1,58 @@
+//go:build verif
+
+package reader
+
+import (
+	"sort"
+
+	"github.com/zilliztech/milvus-cdc/core/api"
+	"github.com/zilliztech/milvus-cdc/core/util"
+)
+
+// VerifGate, when set by a verification driver, is called by the goroutines of the
+// manager's channel offer protocol right before they take the channel lock
+// (forwardChannel: "fwdcheck" channel; waitChannel: "handoff" received channel,
+// source pchannel, target pchannel).  It may block (scheduler gate).
+var VerifGate func(point string, args ...string)
+
+func verifGate(point string, args ...string) {
+	if f := VerifGate; f != nil {
+		f(point, args...)
+	}
+}
+
+// VerifHandlerView is a read-only copy of what a channel handler carries for the offer protocol.
+type VerifHandlerView struct {
+	Key            string
+	SourcePChannel string
+	TargetPChannel string
+	SourceKey      bool
+	Started        bool
+}
+
+// VerifChannelState returns, under the channel lock, the channel mapping, a view of the
+// channel handlers (sorted by key) and a copy of the forward counters.
+func VerifChannelState(m api.ChannelManager) (*util.ChannelMapping, []VerifHandlerView, map[string]int) {
+	r, ok := m.(*replicateChannelManager)
+	if !ok {
+		return nil, nil, nil
+	}
+	r.channelLock.RLock()
+	defer r.channelLock.RUnlock()
+	views := make([]VerifHandlerView, 0, len(r.channelHandlerMap))
+	for k, h := range r.channelHandlerMap {
+		v := VerifHandlerView{Key: k, SourcePChannel: h.sourcePChannel, TargetPChannel: h.targetPChannel, SourceKey: h.sourceKey}
+		select {
+		case <-h.startReadChan:
+			v.Started = true
+		default:
+		}
+		views = append(views, v)
+	}
+	sort.Slice(views, func(i, j int) bool { return views[i].Key < views[j].Key })
+	fm := make(map[string]int, len(r.channelForwardMap))
+	for k, c := range r.channelForwardMap {
+		fm[k] = c
+	}
+	return r.channelMapping, views, fm
+}
